@@ -4,6 +4,11 @@ OWNMEM = 'harness/C09/snappy.c (CQV_OWN_MEM): memcpy/memset contracts as in stub
 SC10 = dict(overlays=['contracts/snappy_comp.ovl'], harness='harness/C10/snappy.c')
 SPEC = 'specs/snappy_spec.h: element/preamble parser written from the Snappy format description'
 
+CS_ASSIGNS = r'\.assigns\.'
+CS_DEREF = r'\.pointer_dereference\.|\.pointer_primitives\.|\.array_bounds\.'
+CS_LOOPS = r'loop invariant|decreases clause|loop instrumentation'
+CS_CONTRACT = r'\.postcondition\.|\.assertion\.|\.precondition\.'
+
 JOBS = [
     dict(name='c09_snappy_write_varint', prop='C09', entry='h_c09_write_varint', enforce='snappy_write_varint',
          unwindset=['snappy_write_varint.0:6'], wip=False, **SC9),
@@ -19,20 +24,39 @@ JOBS = [
          wip=False, **SC9),
     dict(name='c09_snappy_bound_lemma', prop='C09', entry='h_c09_bound_lemma', loop_contracts=False,
          functions=['carquet_snappy_compress_bound'], wip=False, **SC9),
-    dict(name='c09_snappy_compress', props=['C09', 'C10'], entry='h_c09_compress', enforce='carquet_snappy_compress',
+    # carquet_snappy_compress: one contract, obligations split over slices (select=); --arrays-uf-always keeps the
+    # 16384-entry hash table out of the bit-level encoding (flattened it costs 3-5 M variables per query)
+] + [
+    dict(name='c09_snappy_compress_' + nm, props=['C09', 'C10'], entry='h_c09_compress', enforce='carquet_snappy_compress',
          replace=['carquet_snappy_compress_bound', 'snappy_write_varint', 'snappy_emit_literal', 'snappy_emit_copy'],
-         min_loop_obligations=2, est_s=900, timeout=3000, mem_gb=24, tier='thorough', backend='cadical', wip=True,
-         note='UNDECIDED: MiniSat > 25 min, CaDiCaL out of memory at 8 GB; loop-step obligations need > 150 s each. Reach canaries confirmed only for the tiny-input path after the __CPROVER_old(op) fix',
+         select=sel, min_loop_obligations=mlo, est_s=600, timeout=3000, mem_gb=mem, tier='thorough',
+         backend=['cadical', 'sat'], cbmc_flags=['--arrays-uf-always'], wip=True,
          replayer=dict(kind='fuzz', harness='replay/fz/snappy_compress.c', sources=['src/compression/snappy.c'], max_len=64, secs=20),
-         defines=['CQV_OWN_MEM=1'], extra_sources=[], trusted=[OWNMEM], **SC9),
-    # cheap slice of the same contract: lengths the 32-bit preamble cannot represent are refused without a write
-    # (postcondition.1/.2 = the first two ensures of the overlay) and the preamble written is never truncated
-    dict(name='c09_snappy_compress_len32', props=['C09', 'C10'], entry='h_c09_compress', enforce='carquet_snappy_compress',
+         defines=['CQV_OWN_MEM=1'], extra_sources=[], trusted=[OWNMEM], **SC9)
+    for nm, sel, mlo, mem in [
+        ('assigns', CS_ASSIGNS, 0, 12),
+        ('deref', CS_DEREF, 0, 12),
+        ('loops', CS_LOOPS, 2, 24),
+        ('contract', CS_CONTRACT, 0, 24),
+        ('rest', r'^(?!.*(' + '|'.join([CS_ASSIGNS, CS_DEREF, CS_LOOPS, CS_CONTRACT]) + r'))', 0, 12),
+    ]
+] + [
+    # input classes that return before / without the main loop, same contract, all obligations
+    dict(name='c09_snappy_compress_tiny', props=['C09', 'C10'], entry='h_c09_compress_tiny', enforce='carquet_snappy_compress',
          replace=['carquet_snappy_compress_bound', 'snappy_write_varint', 'snappy_emit_literal', 'snappy_emit_copy'],
-         select=r'carquet_snappy_compress\.postcondition\.[12] |representable in the 32-bit preamble',
-         min_loop_obligations=0, est_s=120, timeout=900, wip=True,
+         level='bounded', bound='src_size < 15 (single-literal path; every capacity, every pointer combination)',
+         cbmc_flags=['--arrays-uf-always'], backend=['cadical', 'sat'], est_s=120, timeout=900, wip=True,
+         defines=['CQV_OWN_MEM=1', 'CQV_CLASS=1'], extra_sources=[], trusted=[OWNMEM], **SC9),
+    # lengths the 32-bit preamble cannot represent are refused (postcondition.1 = first ensures of the overlay), and
+    # dst is not written (conditional assigns clause): input class src_size > 2^32-1
+    dict(name='c09_snappy_compress_len32', props=['C09', 'C10'], entry='h_c09_compress_oversize', enforce='carquet_snappy_compress',
+         replace=['carquet_snappy_compress_bound', 'snappy_write_varint', 'snappy_emit_literal', 'snappy_emit_copy'],
+         select=r'carquet_snappy_compress\.postcondition\.1 |\.assigns\.|representable in the 32-bit preamble',
+         cbmc_flags=['--arrays-uf-always'], est_s=60, timeout=600, wip=True,
          note='was FINDING (src_size >= 2^32 accepted, truncated preamble); fixed upstream by ee97737',
-         defines=['CQV_OWN_MEM=1'], extra_sources=[], trusted=[OWNMEM], **SC9),
+         defines=['CQV_OWN_MEM=1', 'CQV_CLASS=2'], extra_sources=[], trusted=[OWNMEM], **SC9),
+]
+JOBS += [
     dict(name='c10_snappy_varint', prop='C10', entry='h_c10_varint', loop_contracts=False, unwind=6,
          functions=['snappy_write_varint'], trusted=[SPEC], wip=False, **SC10),
     dict(name='c10_snappy_emit_literal', prop='C10', entry='h_c10_emit_literal', loop_contracts=False,
